@@ -107,12 +107,14 @@ def toeplitz_matmul(toeplitz_column, toeplitz_row, tensor):
     if toeplitz_column.size() != toeplitz_row.size():
         raise RuntimeError("c and r should have the same length (Toeplitz matrices are necessarily square).")
 
+    is_vector = tensor.ndimension() == 1
+    if is_vector:
+        tensor = tensor.unsqueeze(-1)
+
     toeplitz_shape = torch.Size((*toeplitz_column.shape, toeplitz_row.size(-1)))
     output_shape = broadcasting._matmul_broadcast_shape(toeplitz_shape, tensor.shape)
-    broadcasted_t_shape = output_shape[:-1] if tensor.dim() > 1 else output_shape
+    broadcasted_t_shape = output_shape[:-1]
 
-    if tensor.ndimension() == 1:
-        tensor = tensor.unsqueeze(-1)
     toeplitz_column = toeplitz_column.expand(*broadcasted_t_shape)
     toeplitz_row = toeplitz_row.expand(*broadcasted_t_shape)
     tensor = tensor.expand(*output_shape)
@@ -145,6 +147,8 @@ def toeplitz_matmul(toeplitz_column, toeplitz_row, tensor):
 
     output = ifft(fft_product).real.mT
     output = output[..., :orig_size, :]
+    if is_vector:
+        output = output.squeeze(-1)
     return output
 
 
